@@ -1293,6 +1293,14 @@ static void check_modes(const char *when)
 	}
 }
 
+static void on_bad_close(int fd)
+{
+	// the server closing a descriptor number it has closed before: whatever was given that number in between - by another
+	// thread, or by the application in one of its callbacks - would have been closed behind its owner's back
+	if (cur_spid() == G.server_spid && !G.server_dead)
+		VIOL(which, "descriptor-closed-twice", "close", "the server closed descriptor number %d although it is not open (it was closed before)", fd);
+}
+
 static void on_call(uint32_t)
 {
 	if (which == 5 && cur_spid() == G.server_spid && !G.ledger_paths.empty()) check_modes("between two server system calls");
@@ -1715,6 +1723,7 @@ static void run(const char *prop, const RunSpec &spec)
 	shim_random_seed(spec.seed);
 	ShimHooks &h = shim_hooks();
 	h.on_path = on_path;
+	h.on_bad_close = on_bad_close;
 	h.on_call = on_call;
 	h.on_proc_death = on_proc_death;
 	h.on_epoll_wait = [](int) { if (cur_spid() == G.server_spid) G.server_polls++; };
